@@ -135,6 +135,11 @@ class ObjGen(lg.Gen):
                                                             for f in self.all_fields(name)], False, ""))
             if self.with_dtors and r.random() < 0.6:
                 c["dtor"] = [("echo", ("s", "~" + name)), ("echo", ("s", "~" + name + " done"))]
+                # destructors that make calls / touch statics while their owner may be unwinding from a return
+                if r.random() < 0.5:
+                    c["dtor"].insert(1, ("echo", ("bin", "+", ("s", "note "), ("call", "note", [("i", r.randint(0, 9))]))))
+                if c["fields"] and c["fields"][-1][0] and r.random() < 0.5:
+                    c["dtor"].insert(1, ("expr", ("sfset", name, "cnt", ("bin", "-", ("sfld", name, "cnt"), ("i", 1)))))
 
     def gen_methods(self, c):
         r = self.r
@@ -298,7 +303,7 @@ class ObjGen(lg.Gen):
                     f = r.choice(fs)
                     body.append(("echo", ("fld", ("v", v), f[3])))
         # helper function taking an ancestor-typed parameter
-        helpers = []
+        helpers = [("note", "int", [("int", "v")], [("ret", ("bin", "+", ("v", "v"), ("i", 1)))])]
         if r.random() < 0.7:
             pc = r.choice(self.classes)["name"]
             hb = [("echo", ("s", "use " + pc))]
@@ -315,7 +320,17 @@ class ObjGen(lg.Gen):
                              ("if", ("bin", ">", ("v", "v"), ("i", 1)), ("block", [("ret", ("bin", "*", ("v", "v"), ("i", 2)))]), None),
                              ("ret", ("bin", "+", ("v", "v"), ("i", 1)))]))
             body.append(("echo", ("call", "scratch", [("i", r.choice([0, 1, 2, 3]))])))
-        # upcast assignment and calls through it
+        # ... and one that lives in the very block that returns (its destructor runs while the value is pending)
+        if r.random() < 0.6:
+            dyn = r.choice(self.classes)["name"]
+            helpers.append(("inner", "int", [("int", "v")],
+                            [("if", ("bin", ">", ("v", "v"), ("i", 1)),
+                              ("block", [("decl", False, ("cls", dyn), "tmp", self.new_expr(dyn, {"v": ("int", False, False)}, {})),
+                                         ("ret", ("bin", "*", ("v", "v"), ("i", 3)))]), None),
+                             ("ret", ("bin", "+", ("v", "v"), ("i", 2)))]))
+            body.append(("echo", ("bin", "+", ("call", "inner", [("i", r.choice([0, 2, 3]))]), ("i", 1))))
+            body.append(("decl", False, "int", "keep", ("call", "inner", [("i", r.choice([2, 5]))])))
+            body.append(("echo", ("v", "keep")))
         pairs = [(a, b) for a in objs for b in objs if a != b and self.is_sub(objs[b]["static"], objs[a]["static"])]
         if pairs and r.random() < 0.6:
             a, b = r.choice(pairs)
